@@ -288,7 +288,8 @@ func (s *session) SignalDisconnect(pkt *mqttp.Disconnect) error {
 				// zero Session Expiry Interval in the DISCONNECT packet sent by the Client. If such a non-zero Session
 				// Expiry Interval is received by the Server, it does not treat it as a valid DISCONNECT mqttp. The Server
 				// uses DISCONNECT with Reason Code 0x82 (Protocol Error) as described in section 4.13.
-				if (s.expireIn != nil && *s.expireIn == 0) && val != 0 {
+				// (no Session Expiry Interval in CONNECT means zero as well)
+				if (s.expireIn == nil || *s.expireIn == 0) && val != 0 {
 					err = mqttp.CodeProtocolError
 				} else {
 					s.expireIn = &val
